@@ -213,10 +213,9 @@ def run_one(mod, case, stats, open_known, count=True):
         stats.rejected_reasons[str(r)[:80]] += 1
         return None
     except Violation as v:
-        for e in open_known:
-            if v.signature == e["signature"] or re.fullmatch(e.get("signature_re", "$^"), v.signature):
-                stats.excluded_known[e["key"]] += 1
-                return None
+        # Known findings are tied to their committed regression input only (see run_property); a generated case
+        # that fails - whatever its signature - is a violation.  Property modules keep known shapes out of the
+        # generated domain by construction and report how many they excluded.
         return {"case": case, "signature": v.signature, "message": v.message}
     stats.observe(case, obs or {})
     return None
